@@ -657,12 +657,22 @@ func alterations(in *injector, b base, duty core.Duty, distinct func(string)) {
 	if len(b.W.GetJustification()) > 0 {
 		k := rng.Intn(len(b.W.GetJustification()))
 		j := b.W.GetJustification()[k]
-		{ // justification from another duty (validly signed)
+		// justification from another duty (validly signed by its source for THAT duty — what a member
+		// that saw the other duty's traffic can replay): each component of the duty differing alone
+		for _, od := range []struct {
+			name string
+			d    core.Duty
+		}{
+			{"type", otherDuty},
+			{"slot", core.Duty{Slot: duty.Slot + 1, Type: duty.Type}},
+			{"slot", core.Duty{Slot: duty.Slot - 1, Type: duty.Type}},
+			{"slot", core.Duty{Slot: duty.Slot + 1<<32, Type: duty.Type}},
+		} {
 			w := proto.Clone(b.W).(*pbv1.QBFTConsensusMsg)
 			jj := proto.Clone(j).(*pbv1.QBFTMsg)
-			jj.Duty = core.DutyToProto(otherDuty)
+			jj.Duty = core.DutyToProto(od.d)
 			w.Justification[k] = signIndep(jj, e.keys[jj.GetPeerIdx()])
-			in.mustReject("justification-of-other-duty", fmt.Sprintf("justification[%d].duty", k), b.From, w, b.Name)
+			in.mustReject("justification-of-other-duty", fmt.Sprintf("justification[%d].duty.%s", k, od.name), b.From, w, b.Name)
 		}
 		{ // justification signed by a non-member key
 			w := proto.Clone(b.W).(*pbv1.QBFTConsensusMsg)
